@@ -94,8 +94,14 @@ def confirm_hangs(drv, fails, seed):
 def report(ctx, pid, drv, fails, label):
     """property-level failures first (concrete inputs), then correspondence-level ones"""
     fails = confirm_hangs(drv, fails, ctx.seed)
-    prop = [f for f in fails if f["kind"] in PROP_KINDS[pid]]
-    corr = [f for f in fails if f["kind"] not in PROP_KINDS[pid]]
+    def is_prop(f):
+        if f["kind"] in PROP_KINDS[pid]:
+            return True
+        # C06: the real reader refuses the bytes the real writer has just produced, into a configuration that takes the mesh
+        # (the model accepts): the round trip itself fails on a concrete file, whatever the model says
+        return pid == "C06" and f["kind"] == "rejects-what-model-accepts" and "[original" in f.get("detail", "")
+    prop = [f for f in fails if is_prop(f)]
+    corr = [f for f in fails if not is_prop(f)]
     n = _report(ctx, drv, prop, label, True)
     n += _report(ctx, drv, corr, label + "-corr", False)
     return {"property_level": len(prop), "correspondence_level": len(corr), "reported": n}
